@@ -46,11 +46,48 @@ def stale_backup_check():
     return out
 
 
+def update_overwrites_all_check():
+    """'DocSync.update overwrites all': also a value that differs from the destination's only as a JSON value (1 / true / 1.0), top level and
+    nested, job and project level -- compared through the JSON text of the file"""
+    import logging
+    import signac
+    from signac.sync import DocSync
+    logging.disable(logging.CRITICAL)
+    out = []
+    for level in ("job", "project"):
+        with dir_scratch() as d:
+            os.makedirs(d + "/src")
+            os.makedirs(d + "/dst")
+            src, dst = signac.init_project(d + "/src"), signac.init_project(d + "/dst")
+            js, jd = src.open_job({"a": 1}).init(), dst.open_job({"a": 1}).init()
+            sdoc, ddoc = (js.doc, jd.doc) if level == "job" else (src.doc, dst.doc)
+            for k, v in {"k": 1, "f": 2, "other": 0, "n": {"x": 1}}.items():
+                ddoc[k] = v
+            for k, v in {"k": True, "f": 2.0, "other": 5, "n": {"x": 1.0}}.items():
+                sdoc[k] = v
+            fn = jd.fn("signac_job_document.json") if level == "job" else dst.fn("signac_project_document.json")
+            try:
+                with contextlib.redirect_stdout(io.StringIO()):
+                    dst.sync(src, doc_sync=DocSync.update)
+            except Exception as e:
+                out.append((level, f"{level} document sync with DocSync.update raised {type(e).__name__}: {e}"))
+                continue
+            got = json.dumps(json.loads(open(fn, "rb").read().decode()), sort_keys=True)
+            want = json.dumps({"k": True, "f": 2.0, "other": 5, "n": {"x": 1.0}}, sort_keys=True)
+            if got != want:
+                out.append((level, f"{level} document after a sync with DocSync.update is {got}; the source document, which update() copies key by key, is {want}"))
+    return out
+
+
 def run(tier="quick", seed=0):
     r = run_focus("C14", tier, seed, Budget(14 if tier == "quick" else 300))
     for level, msg in stale_backup_check():
         r["failures"].append({"key": "doc-rollback:stale-backup:" + level, "description": msg,
                               "script": script_header() + "sys.path.insert(0, '/verif')\nfrom pybound.c14 import stale_backup_check\nr = stale_backup_check()\nassert not r, r\n"})
-    r["evaluations"] += 2
+    for level, msg in update_overwrites_all_check():
+        r["failures"].append({"key": "doc-update:type-only-difference:" + level, "description": msg,
+                              "script": script_header() + "sys.path.insert(0, '/verif')\nfrom pybound.c14 import update_overwrites_all_check\nr = update_overwrites_all_check()\nassert not r, r\n"})
+    r["evaluations"] += 4
+    r["scope"] += "; DocSync.update over values that differ only as JSON values (1 / true / 1.0), top level and nested"
     r["scope"] += "; a conflicting document sync with a stale backup file next to the destination document (job and project level): raises and leaves the document as it was"
     return r
